@@ -2,7 +2,7 @@
    prefixes and symbols.  Only statements; every proof is `exact <lemma>`. *)
 From Coq Require Import Reals QArith String.
 From QV Require Import Rt.Prelude Rt.Amount Macro.Defs Gen.Prefixes Gen.Catalogue Macro.Inst Amount.F64 Amount.Dec
-  Proofs.Instances Proofs.C09 Spec.Units Proofs.C07 Proofs.C07pi.
+  Proofs.Instances Proofs.C09 Spec.Units Proofs.C07.
 Local Close Scope Q_scope.
 Local Close Scope R_scope.
 
@@ -20,17 +20,6 @@ Proof. exact main_crate_matches_spec. Qed.
 Theorem C07_astronomical_crate : forallb (entry_matches_spec false) catalogue_astro = true.
 Proof. exact astro_crate_matches_spec. Qed.
 
-(** the parsec family against 648000/pi au *)
-Theorem C07_parsec_family :
-  within_eps pc_q (648000 / PI)%R /\ within_eps kpc_q (648000 * 1000 / PI)%R /\
-  within_eps mpc_q (648000 * 1000000 / PI)%R /\ within_eps gpc_q (648000 * 1000000000 / PI)%R.
-Proof. exact parsec_family. Qed.
-
-Theorem C07_parsec_scales_are_the_generated_ones :
-  pc_q = astro_length_scale_Q (us "Parsec"%string) /\ kpc_q = astro_length_scale_Q (us "Kiloparsec"%string) /\
-  mpc_q = astro_length_scale_Q (us "Megaparsec"%string) /\ gpc_q = astro_length_scale_Q (us "Gigaparsec"%string).
-Proof. exact pc_q_is_scale. Qed.
-
 (** names are spelled by the identifiers, every arm of the generated tables is
     the declared one (shared with C09) *)
 Theorem C07_generated_tables_are_declarations : forallb registry_ok all_entries = true.
@@ -44,7 +33,5 @@ Proof. exact catalogue_sizes. Qed.
 
 Print Assumptions C07_main_crate.
 Print Assumptions C07_astronomical_crate.
-Print Assumptions C07_parsec_family.
-Print Assumptions C07_parsec_scales_are_the_generated_ones.
 Print Assumptions C07_generated_tables_are_declarations.
 Print Assumptions C07_sizes.
